@@ -200,6 +200,8 @@ func buildLoggers(p params, w io.Writer) (lgs []zerolog.Logger, derive func(i in
 	switch p.writer {
 	case "sync":
 		dst = zerolog.SyncWriter(w)
+	case "syncsync": // one destination behind SyncWriter, and (for every second goroutine, see below) behind another one around it
+		dst = zerolog.SyncWriter(w)
 	case "synclevel": // the wrapped destination is a LevelWriter: events reach it through WriteLevel
 		dst = zerolog.SyncWriter(levelW{w})
 	case "console", "consolefail": // (consolefail: the destination rejects the first line it is handed - see recW)
@@ -238,6 +240,19 @@ func buildLoggers(p params, w io.Writer) (lgs []zerolog.Logger, derive func(i in
 	}
 	n := len(p.threads)
 	lgs = make([]zerolog.Logger, n)
+	if p.writer == "syncsync" {
+		// every second goroutine reaches the destination through SyncWriter(SyncWriter(w)): wrapping what is wrapped
+		// already must still serialise against the users of the inner wrapper
+		inner := derive
+		outer := zerolog.SyncWriter(dst)
+		derive = func(i int) zerolog.Logger {
+			lg := inner(i)
+			if i%2 == 1 {
+				lg = lg.Output(outer)
+			}
+			return lg
+		}
+	}
 	if p.logger != "derived" {
 		for i := range lgs {
 			lgs[i] = derive(i)
@@ -438,6 +453,8 @@ func plans(tier string) []drv.Plan {
 	add("derived/plain/nested;tiny;tiny", 3)
 	add("shared/sync/tiny,tiny;big", b3)
 	add("shared/sync/tiny;tiny;tiny", b2)
+	add("shared/syncsync/tiny,tiny;tiny", b3)
+	add("children/syncsync/tiny;nested;tiny", b2)
 	add("shared/synclevel/tiny,tiny;big", b3)
 	add("children/synclevel/tiny,tiny;nested", b2)
 	add("shared/console/tiny,nested;tiny", b2)
